@@ -100,6 +100,8 @@ structure MState where
   events : List (Nat × Nat) := []        -- query -> number of events
   issued : Nat := 0
   clean : List Nat := []                 -- queries cancelled before their answer reached the node
+  cancelled : List Nat := []             -- every query the user cancelled
+  qkey : List (Nat × Nat) := []          -- query -> requested cid
   calls : List (Nat × Nat) := []         -- blockstore call -> cid
   avail : List (Nat × Nat) := []         -- (cid, data) legitimately available to the server half
   puts : List (Nat × List (Nat × Nat)) := []
@@ -173,11 +175,15 @@ def quiescent (s : Snap) (ps : PeerSnap) : Bool :=
 def checkState (st : MState) (s : Snap) : List Viol :=
   let v13 := s.swl.filterMap fun (p, ks) =>
     if ks.length > 1024 then some ("C13", s!"server records {ks.length} > 1024 wanted CIDs for peer {p}") else none
+  let v13c := s.swl.filterMap fun (p, _) =>
+    let n := (s.swt.map fun (_, ps) => (ps.filter (· == p)).length).foldl (· + ·) 0
+    if n > 1024 then some ("C13", s!"peer {p} is registered {n} > 1024 times in the server's waiter index") else none
   let v13b := if s.abort.length > s.tasks then [("C13", s!"{s.abort.length} abort handles but only {s.tasks} running tasks")] else []
   -- the serving side's invariant (Spec/ServerSpec.Inv) on the implementation's own state
   let v06a := s.swt.flatMap fun (k, ps) =>
     (if ps.isEmpty then [("C06", s!"empty waiter list kept for cid {k}")] else []) ++
-    (if ps.eraseDups.length != ps.length then [("C07", s!"peer registered twice as waiting for cid {k}: {ps}")] else []) ++
+    (if ps.eraseDups.length != ps.length then [("C07", s!"peer registered twice as waiting for cid {k}: {ps}"),
+        ("C13", s!"a peer is registered {ps.length - ps.eraseDups.length + 1} times as waiting for cid {k}: the records kept for one peer grow with every repetition of a want ({ps.take 12})")] else []) ++
     ps.filterMap fun p =>
       if k ∈ ((lookup s.swl p).getD []) then none
       else some ("C07", s!"peer {p} waits for cid {k} which is not in its recorded wantlist")
@@ -205,7 +211,7 @@ def checkState (st : MState) (s : Snap) : List Viol :=
       else some ("C06", s!"the server's record of peer {p} lacks cid {k}, which the peer wants according to its wantlist messages")) ++
     (rec_.filterMap fun k => if k ∈ ks then none
       else some ("C07", s!"the server's record of peer {p} holds cid {k}, which the peer does not want according to its wantlist messages"))
-  v13 ++ v13b ++ v06a ++ v06b ++ v03 ++ v04 ++ vref
+  v13 ++ v13b ++ v13c ++ v06a ++ v06b ++ v03 ++ v04 ++ vref
 
 def bump (l : List (Nat × Nat)) (q : Nat) : List (Nat × Nat) :=
   if l.any (·.1 == q) then l.map fun e => if e.1 == q then (e.1, e.2 + 1) else e else l ++ [(q, 1)]
@@ -233,17 +239,18 @@ def stepMon (st : MState) (op : String) (out : String) : MState × List Viol :=
       let ghosts := ghosts ++ (snap.peers.filterMap fun (p, _) => if (lookup ghosts p).isSome then none else some (p, ({} : MGhost)))
       let st := { st with ghosts := ghosts }
       let (st, v) : MState × List Viol := match rest with
-        | ["get", _, _] =>
+        | ["get", k, _] =>
           match outToks.find? (·.startsWith "q=") with
           | some q =>
             let q := ((q.drop 2).toString.toNat?).getD 0
             let v := if q != st.issued then [("C03", s!"get returned id {q}, expected the fresh id {st.issued}")] else []
-            ({ st with issued := max st.issued (q + 1) }, v)
+            ({ st with issued := max st.issued (q + 1), qkey := (q, k.toNat?.getD 0) :: st.qkey }, v)
           | none => (st, [("C03", "get returned no query id")])
         | ["cancel", q] =>
           let q := q.toNat?.getD 0
           let noEvent := (lookup st.events q).isNone
           let held := q ∈ prev.abort || prev.waiters.any (fun kq => q ∈ kq.2)
+          let st := { st with cancelled := q :: st.cancelled }
           (if noEvent && held then { st with clean := q :: st.clean } else st, [])
         | ["complete", seq, r] =>
           let seq := seq.toNat?.getD 0
@@ -333,7 +340,7 @@ def stepMon (st : MState) (op : String) (out : String) : MState × List Viol :=
           let sends := outToks.filterMap parseOutTok
           let blks := outToks.filterMap parseBlk
           let evs := outToks.filterMap fun t => match t.splitOn ":" with
-            | ["resp", q, d] => some (q.toNat?.getD 0, some (d.toNat?.getD 0))
+            | ["resp", q, d] => some (q.toNat?.getD 0, some (d.toNat?.getD 999999999))
             | ["err", q, _] => some (q.toNat?.getD 0, none)
             | _ => none
           let calls := outToks.filterMap fun t => match t.splitOn ":" with
@@ -349,6 +356,19 @@ def stepMon (st : MState) (op : String) (out : String) : MState × List Viol :=
             (if ((lookup events q).getD 0) > 1 then [("C03", s!"more than one event for query {q}")] else []) ++
             (if q ≥ st.issued then [("C03", s!"event for query id {q} that was never issued")] else []) ++
             (if q ∈ st.clean then [("C03", s!"event for query {q} that was cancelled before its answer reached the node")] else [])
+          -- C01 / C03: a response carries bytes that the client gate accepted for the query's own CID, or
+          -- that the node's blockstore returned for it
+          let vresp := evs.flatMap fun (q, d) =>
+            match d, lookup st.qkey q with
+            | some d, some k =>
+              if (k, d) ∈ st.accepted || (k, d) ∈ st.avail then [] else
+                [("C01", s!"query {q} for cid {k} was answered with data {d}, which was neither accepted from the network nor read from the blockstore under that CID"),
+                 ("C03", s!"query {q} for cid {k} was answered with data {d}, which is not the content of that CID")]
+            | _, _ => []
+          -- C04: after a poll every live query is tracked (lookup running, or waiting with its CID wanted)
+          let vlive := (List.range st.issued).filterMap fun q =>
+            if (lookup events q).isSome || q ∈ st.cancelled || q ∈ snap.abort || snap.waiters.any (fun kq => q ∈ kq.2) then none
+            else some ("C04", s!"query {q} is live (not cancelled, no event yet) but after a poll the node tracks it nowhere: its CID is no longer wanted from any peer")
           -- C01: blocks written to the store were accepted from the network for that CID
           let v01 := puts.flatMap fun (_, bs) => bs.filterMap fun kd =>
             if kd ∈ st.accepted then none else some ("C01", s!"block ({kd.1},{kd.2}) written to the blockstore was not accepted from the network under that CID")
@@ -417,7 +437,7 @@ def stepMon (st : MState) (op : String) (out : String) : MState × List Viol :=
             else none
           ({ st with events := events, calls := calls ++ st.calls, puts := puts ++ st.puts, ghosts := gs, refWl := refWl,
                      owed := if snap.stasks == 0 then [] else owed, stored := [] },
-           v03 ++ v01 ++ vsend ++ vdup ++ v07 ++ v06 ++ vowed ++ vstored)
+           v03 ++ v01 ++ vsend ++ vdup ++ v07 ++ v06 ++ vowed ++ vstored ++ vlive ++ vresp)
         | _ => (st, [])
       let st := { st with prev := snap }
       (st, v ++ checkState st snap)
